@@ -40,6 +40,12 @@ def r2(run):
         if len(scans) == 1 and not rest:
             x = scans[0]
     src_ok = x[0] == "call" and x[1].fn == C.ITER_FRAMES
+    # an opt-in `skip(n)` between the expiry filter and the limit (n from an optional read option: absent = 0) narrows on request only
+    if names == ["take", "skip", "filter"]:
+        sk = [c for c in chain if c[1].fn.endswith("::skip")][0]
+        cnt = strip(sk[2][1])
+        if cnt[0] == "call" and cnt[1].fn.endswith(("unwrap_or", "unwrap_or_default")) and (len(cnt[2]) < 2 or q.const_int(cnt[2][1]) == 0):
+            names = ["take", "filter"]
     run.ob("%s|adaptors" % C.READ_SYNC, names == ["take", "filter"] and src_ok, b.sp,
            "read_sync = iter_frames(..).filter(expiry).take(limit): expired frames are dropped BEFORE the limit is applied (got %s over %s)" % (
                " <- ".join(names), x[1].fn if x[0] == "call" else fmt(x)), reason="limit-before-expiry-filter")
